@@ -195,6 +195,7 @@ def EmbLv : Spec.Expr → Node → Prop
   | .var .prop v, n => ∃ p q, n = .propAcc p (.leaf .node (.s (S "me")) q) v false
   | .the t k as, n => Emb (.the t k as) n      -- `set the <p> [of sprite n] = v`: the node `the <p> …` reads
   | .oprop v o, n => Emb (.oprop v o) n
+  | .movie v, n => Emb (.movie v) n           -- `set the <movie property> = v` (opcode 60; since the repair of F150 never the declared-property node)
   | _, _ => False
 
 /-- the image of an expression is never the None node (no fragment hypothesis) -/
@@ -322,6 +323,7 @@ theorem embLv_name (lv : Spec.Expr) (l : Node) (h : EmbLv lv l) : ∃ nm, l.name
   | var k v => cases k <;> (simp only [EmbLv] at h; first | (obtain ⟨p, rfl⟩ := h; exact ⟨_, rfl⟩) | (obtain ⟨p, q, rfl⟩ := h; exact ⟨_, rfl⟩))
   | the t k as => simp only [EmbLv] at h; exact emb_the_name t k as l h
   | oprop v o => simp only [EmbLv, Emb] at h; obtain ⟨p, x, rfl, _⟩ := h; exact ⟨_, rfl⟩
+  | movie v => simp only [EmbLv, Emb] at h; rcases h with ⟨p, rfl⟩ | ⟨p, q, o, rfl, _⟩ <;> exact ⟨_, rfl⟩
   | _ => simp [EmbLv] at h
 
 /-- the image of a `put` / `delete` / `hilite` TARGET: the image of the target read as an expression, except that a global at the
@@ -455,6 +457,7 @@ def FragLv : Spec.Expr → Bool
   | .var _ n => idOk n
   | .the t k as => FragE (.the t k as) && (match as with | [_] => (theTbl t).isSome | _ => true)
   | .oprop v o => FragE (.oprop v o)
+  | .movie v => idOk v
   | _ => false
 
 /-- targets of `put … into|after|before`, `delete`, `hilite` below a chunk of rank `r`: a chain of strictly coarser chunks
